@@ -284,7 +284,9 @@ func udpSizePhase(run *mon.Run, bin, dir string) {
 			run.Eval(1)
 			run.Distinct(desc)
 			seen := map[string]bool{}
-			keyOf := func(p string) string { return map[string]string{"ipfix": "ipfix", "sflow": "sflow", "nf5": "netflow5", "nf9": "netflow9"}[p] + "-udp-size" }
+			keyOf := func(p string) string {
+				return map[string]string{"ipfix": "ipfix", "sflow": "sflow", "nf5": "netflow5", "nf9": "netflow9"}[p] + "-udp-size"
+			}
 			reported := map[string]bool{}
 			for _, l := range lines {
 				b := []byte(l)
